@@ -924,6 +924,44 @@ pub fn generate(s: &mut Session, thorough: bool) -> bool {
         }
     }
 
+    // ---- (10b) history: the same element looked up again and again under alternating run numbers on
+    // one thread (a lookup must not remember anything: seed C08-6 memoised the last board's position
+    // across the run-10418 layout change). Answers are computed in this order; the model has no state.
+    {
+        let pr = |p: &(usize, usize)| format!("{} {}", p.0, p.1);
+        let runs: [u32; 10] = [5000, 10418, 5000, u32::MAX, 10418, 4417, 20000, 4418, 10417, 10418];
+        for b in &pwb {
+            for &run in &runs {
+                let e = pwbpos_impl(run, b).unwrap();
+                let why = if let El::Panic(m) = &e { Some(format!("panicked: {m}")) } else { None };
+                s.push_oracle("history-pwbpos", format!("pwbpos {run} {b}"), e.line(pr), why);
+            }
+            for &run in &runs[..6] {
+                let (chip, ch) = (rng.below(4) as u8, rng.range(1, 72) as u16);
+                let e = pad_impl(run, b, chip, ch).unwrap();
+                let why = if let El::Panic(m) = &e { Some(format!("panicked: {m}")) } else { None };
+                s.push_oracle("history-pad", format!("pad {run} {b} {chip} {ch}"), e.line(pr), why);
+            }
+        }
+        let wruns: [u32; 8] = [5000, 2940, 2941, 2723, u32::MAX, 2724, 0, 11192];
+        for b in &a16 {
+            for ch in [0u8, 7, 15, 16, 31] {
+                for &run in &wruns {
+                    let e = wire_impl(run, b, ch).unwrap();
+                    let why = if let El::Panic(m) = &e { Some(format!("panicked: {m}")) } else { None };
+                    s.push_oracle("history-wire", format!("wire {run} {b} {ch}"), e.line(|w| w.to_string()), why);
+                }
+            }
+        }
+        // calibration presence under alternating runs
+        for which in CALS {
+            for &run in &[11084u32, 9277, 11083, 0, u32::MAX, 9276, 11084, 7000, 6999, 7026] {
+                let imp = calhas_impl(which, run).unwrap();
+                s.push_oracle("history-calhas", format!("calhas {which} {run}"), imp, None);
+            }
+        }
+    }
+
     // ---- (11) documented run history (independent of the model and of the source's match arms):
     // which runs share a calibration / a map is a documented fact (data file names, source comments,
     // detector/CHANGELOG.md; the same record as lean/AlphaG/Spec/RunHistory.lean). History is
